@@ -697,6 +697,7 @@ for _l in _W['layers']:
     _c = type(_cn, (unittest.TestCase,), _ns)
     _c.__module__ = __name__
     globals()[_cn] = _c
+    del _c          # the loader must see every class once only
 '''
 
 DRIVER = _boot.BOOT + r'''
